@@ -8,3 +8,6 @@ import Goat.Lemmas.Pratt
 import Goat.Props.C05
 import Goat.Model.Num
 import Goat.Props.C04
+import Goat.Model.OMap
+import Goat.Lemmas.OMap
+import Goat.Props.C10
